@@ -37,26 +37,35 @@ def judge (c : Case) : CaseResult := Id.run do
   for n in c.notes do
     r := { r with specs := s!"engine_{if n == "noquiesce" then "does_not_quiesce" else "call_blocked"}: {n}" :: r.specs }
   -- 1. model (faithful) against implementation
+  -- Inside the known-defective inclusive-join protocol the real engine races (tracker notification against the
+  -- released tokens) in more ways than the two modelled variants: once a variant has logged `inclusive_cohort`
+  -- at or before the point where it stops reproducing the run, the run is attributed to that finding instead of
+  -- being reported as a model/implementation disagreement.
+  let inCohortLand (m : Replay) : Bool := (m.causesAt.getD m.failAt m.causes).contains "inclusive_cohort"
+  let tolerated := !(good m) && (inCohortLand m0 || inCohortLand m1)
   let mut modelAgrees := true
-  match m.oos with
-  | some why =>
-    if unknownReq m.oos then
-      modelAgrees := false
-      r := { r with diffs := s!"model never issued a request the implementation issued ({why})" :: r.diffs }
-    else
-      return { r with skipped := true, infos := [s!"outside the model's domain: {why}"] }
-  | none =>
-    match m.mismatch with
-    | some (k, mo, im) =>
-      modelAgrees := false
-      r := { r with diffs := s!"segment {k}: model [{mo}] impl [{im}]" :: r.diffs }
-    | none =>
-      if !sameVars m.finalVars implVars then
+  if tolerated then
+    r := { r with infos := "model cannot resolve the race inside the inclusive-cohort protocol; attributed to inclusive_cohort" :: r.infos }
+  else
+    match m.oos with
+    | some why =>
+      if unknownReq m.oos then
         modelAgrees := false
-        r := { r with diffs := s!"final variables: model {showVars m.finalVars} impl {showVars implVars}" :: r.diffs }
+        r := { r with diffs := s!"model never issued a request the implementation issued ({why})" :: r.diffs }
+      else
+        return { r with skipped := true, infos := [s!"outside the model's domain: {why}"] }
+    | none =>
+      match m.mismatch with
+      | some (k, mo, im) =>
+        modelAgrees := false
+        r := { r with diffs := s!"segment {k}: model [{mo}] impl [{im}]" :: r.diffs }
+      | none =>
+        if !sameVars m.finalVars implVars then
+          modelAgrees := false
+          r := { r with diffs := s!"final variables: model {showVars m.finalVars} impl {showVars implVars}" :: r.diffs }
   -- 2. specification (token game) against implementation
   -- the deviations the faithful model had logged when the token game first disagrees with the engine
-  let upTo := (m.causesAt.getD i.failAt m.causes)
+  let upTo := if tolerated then ["inclusive_cohort"] else (m.causesAt.getD i.failAt m.causes)
   let sig := if modelAgrees && !upTo.isEmpty then "+".intercalate upTo else "unexplained_deviation"
   let specFail : Option String :=
     match i.oos with
